@@ -115,6 +115,14 @@ def main():
                                             msg("A", fld("s", 1, "message", type="S"), fld("m", 2, "message", "map", type="S"),
                                                 fld("l", 3, "message", "repeated", type="S", nullable=False), fld("x", 4, "string"))),
                                        config(["A"]))])
+    # F13: a nullable embedded message with a child that is a message without fields held by value: the repair of F4
+    # declares the local `src` for it and nothing reads it ('declared and not used: src')
+    f13 = file(msg("E"), msg("Emb", fld("e", 1, "message", type="E", nullable=False), fld("s", 2, "string"),
+                             fld("l", 3, "string", "repeated")),
+               msg("A", fld("Emb", 1, "message", type="Emb", embed=True), fld("x", 2, "int64")))
+    write("C01", "probe-F13", [variant(f13, config(["A"]))])
+    for prop in ["C03", "C04", "C05", "C09", "C20"]:
+        write(prop, "probe-F13", [variant(f13, config(["A"]))], INNER)
 
 if __name__ == "__main__":
     main()
